@@ -1,8 +1,9 @@
 (* C08 — Metric datapoints are stored and returned bit-exactly per series.
    Statements only; proofs in SigP.GorillaProofs / SigP.TsidProofs. *)
-From SigM Require Import Base Bits Gorilla Tsid MetricsPlan.
+From SigM Require Import Base Bits Gorilla Tsid MetricsPlan TagsTreeGc.
+From Coq Require Import Permutation.
 From SigG Require Import Gen.
-From SigP Require Import BaseProofs BitsProofs GorillaProofs TsidProofs MetricsPlanProofs GenC08 GenC08bw GenC08all.
+From SigP Require Import BaseProofs BitsProofs GorillaProofs TsidProofs MetricsPlanProofs TagsTreeGcProofs GenC08 GenC08bw GenC08all.
 Open Scope Z_scope.
 
 (* The series codec (compressor.go -> bytes -> decompressor.go) returns every point with the
@@ -232,3 +233,59 @@ Theorem C08_code_compressor_calls_wellformed : forall (s : est) (t v : N),
   let '(_, _, evs) := gen_Compress (abs_est s) (Z.of_N t) (Z.of_N v) in Forall ev_wf evs.
 Proof. exact gen_Compress_events_wf. Qed.
 Print Assumptions C08_code_compressor_calls_wellformed.
+
+(* ==== datapoints of a segment that survives a retention pass (seed C08j) ====
+   metricmeta.json lists the closed metrics segments in rotation order; an entry (segment, tags-tree directory) names the
+   directory its series are looked up in, and segments of a shard rotated within one life of a tags tree holder share it.
+   removeMetricsSegmentsByList (retention -> meta.RemoveMetricsSegments) removes the segments of a set rm and the
+   tags-tree directories no preserved entry uses. Model: TagsTreeGc.gc_code (the scan with its two accumulators, then the
+   pass over the preserved entries), tied to the code by one case per real retention pass (entries before, removal set,
+   entries after, directories gone). A selector query on a closed segment after a restart needs the entry and the
+   directory (gc_searchable). *)
+
+(* the directories deleted = directories of removed entries minus directories of preserved entries: a function of the
+   SET of listed entries *)
+Theorem C08_retention_tags_tree_delete_set : forall (rm : list N) (es : list gc_entry) (d : N),
+  In d (snd (gc_code rm es)) <->
+  (exists e, In e es /\ gc_mem (fst e) rm = true /\ snd e = d) /\
+  (forall e, In e es -> gc_mem (fst e) rm = false -> snd e <> d).
+Proof. exact gc_code_delete_set. Qed.
+Print Assumptions C08_retention_tags_tree_delete_set.
+
+(* hence the same for every listing order (back-filled old data rotated after recent data, or before) *)
+Theorem C08_retention_tags_tree_delete_set_order_independent : forall (rm : list N) (es es' : list gc_entry) (d : N),
+  Permutation es es' -> (In d (snd (gc_code rm es)) <-> In d (snd (gc_code rm es'))).
+Proof. exact gc_code_order_independent. Qed.
+Print Assumptions C08_retention_tags_tree_delete_set_order_independent.
+
+(* the file afterwards: exactly the entries outside rm, in their order *)
+Theorem C08_retention_keeps_entries_in_file_order : forall (rm : list N) (es : list gc_entry),
+  fst (gc_code rm es) = filter (fun e => negb (gc_mem (fst e) rm)) es.
+Proof. exact gc_code_preserved. Qed.
+Print Assumptions C08_retention_keeps_entries_in_file_order.
+
+(* full strength: for every store in which each listed segment has its tags-tree directory, ANY sequence of retention
+   passes with ANY removal sets and any listing order: a segment no pass removes is still listed and its tags tree is
+   still there - its datapoints can be found by a selector query after a restart *)
+Theorem C08_retention_survivor_stays_searchable : forall (rms : list (list N)) (s : gc_store) (e : gc_entry),
+  (forall e', In e' (fst s) -> In (snd e') (snd s)) ->
+  In e (fst s) -> (forall rm, In rm rms -> gc_mem (fst e) rm = false) ->
+  gc_searchable (fold_left gc_retain rms s) e.
+Proof. exact gc_survivor_searchable. Qed.
+Print Assumptions C08_retention_survivor_stays_searchable.
+
+(* a tags-tree directory goes only together with a removed segment that used it *)
+Theorem C08_retention_dir_removed_only_with_a_segment : forall (s : gc_store) (rm : list N) (d : N),
+  In d (snd s) -> ~ In d (snd (gc_retain s rm)) ->
+  exists e, In e (fst s) /\ gc_mem (fst e) rm = true /\ snd e = d.
+Proof. exact gc_dir_removed_only_with_a_segment. Qed.
+Print Assumptions C08_retention_dir_removed_only_with_a_segment.
+
+(* the "single pass" variant (a preserved entry takes its directory out of the delete set when it is read): a preserved
+   entry listed BEFORE a removed entry of the same directory loses its tags tree; the code keeps it.
+   Witness: entries [(seg 0, dir 0); (seg 1, dir 0)], remove segment 1. *)
+Theorem C08_retention_single_pass_refuted : exists (s : gc_store) (rm : list N) (e : gc_entry),
+  (forall e', In e' (fst s) -> In (snd e') (snd s)) /\ In e (fst s) /\ gc_mem (fst e) rm = false /\
+  gc_searchable (gc_retain s rm) e /\ ~ gc_searchable (gc_retain_with gc_single s rm) e.
+Proof. exact gc_single_pass_refuted. Qed.
+Print Assumptions C08_retention_single_pass_refuted.
